@@ -145,6 +145,38 @@ let run_case (line:str) : str =
      | None -> "refused"
      | Some segs -> "local " ^ hex_of_bytes (L.concat_map (fun sg -> n_of_int 47 :: sg) segs))
   | "serve" -> "confined"
+  | "read" ->
+    let backend = tok ts in let objt = tok ts in
+    let obj = if objt = "missing" then None else Some (bytes_of_hex objt) in
+    let off = tn ts in let len = tn ts in
+    let c = (match tok ts with "n" -> CNone | "c" -> CCurrent | _ -> CStale) in
+    let r = (match backend with
+      | "m" -> read_mock obj off len c
+      | "f" -> read_file true obj off len c
+      | _ -> read_http (origin obj off len c)) in
+    (match r with
+     | BOk b -> "ok " ^ hex_of_bytes b
+     | BRefresh st -> "refresh " ^ string_of_n st
+     | BErr st -> "err " ^ string_of_n st)
+  | "tags" ->
+    let backend = tok ts in let n = ti ts in
+    let items = L.init n (fun _ -> let mt = tok ts in let c = tok ts in (mt, c)) in
+    (* the key that determines the tag: content (in-memory, HTTP origin with content ETags) or (mtime,size) (local) *)
+    let keyof (mt, c) = if backend = "f" then mt ^ ":" ^ string_of_int (S.length c / 2 * (if c = "-" then 0 else 1)) else c in
+    let tbl = Hashtbl.create 8 in
+    let classes = L.map (fun it -> let k = keyof it in
+      (match Hashtbl.find_opt tbl k with Some i -> i | None -> let i = Hashtbl.length tbl in Hashtbl.add tbl k i; i)) items in
+    let rec stale = function a :: (b :: _ as r) -> (if a <> b then "1" else "0") :: stale r | _ -> [] in
+    "classes " ^ S.concat " " (L.map string_of_int classes) ^ " stale " ^ S.concat " " (stale classes)
+  | "fault" ->
+    let kind = tok ts in
+    let r = (match kind with
+      | "refused" | "reset" -> read_http OTransport
+      | _ -> read_http (OStatus (tn ts, []))) in
+    (match r with
+     | BOk b -> "ok " ^ hex_of_bytes b
+     | BRefresh st -> "refresh " ^ string_of_n st
+     | BErr st -> "err " ^ string_of_n st)
   | op -> "unknown-op " ^ op
 
 let () =
